@@ -330,7 +330,7 @@ class BuiltinModelLoaderGen(ModelLoaderGen):
 
                 value = state.v_field(field)
                 if param.kind == ParamKind.KW_ONLY or has_skipped_params:
-                    if iskeyword(param.name):  # e.g. TypedDict key `from`
+                    if iskeyword(param.name) or param.name == "__debug__":  # e.g. TypedDict key `from`
                         constructor_builder(f"**{{{param.name!r}: {value}}},")
                     else:
                         constructor_builder(f"{param.name}={value},")
